@@ -120,6 +120,15 @@ def apply(dm, o):
                 for c in list(src._data.columns):
                     import pandas as pd
                     src.modify_element(lab, c, 2.0 if pd.api.types.is_numeric_dtype(src._data[c].dtype) else "zz")
+        elif op == "wrap_and_touch":
+            # a second DataModel built from this one takes over; the first one gets a row appended (a frame of its own from then on)
+            # and is queried through every column's equality index
+            first = dm
+            dm = DataModel(first)
+            cols = list(first._data.columns)
+            first.append_data_model(DataModel([[enc(c, 1) for c in cols]], columns=cols))
+            for c in cols:
+                first.query_index_column_value_indices(c, enc(c, 1))
         elif op == "remove_rows":
             dm.remove_rows(o["col"], enc(o["col"], o["v"]))
         elif op == "rename_column":
@@ -171,7 +180,7 @@ def apply(dm, o):
     return dm, ev
 
 
-ALL_OPS = {"rename_map", "modify_element", "modify_row", "modify_column", "append", "touch_source", "remove_rows", "rename_column", "slice",
+ALL_OPS = {"rename_map", "modify_element", "modify_row", "modify_column", "append", "touch_source", "wrap_and_touch", "remove_rows", "rename_column", "slice",
            "reset_index", "fillna", "access", "column", "index", "bundle", "index_first", "index_dm", "iter", "len",
            "read_block", "read_block_with", "boundary"}
 
@@ -194,6 +203,7 @@ def mutations(fr):
         out.append({"op": "append", "rows": [[1, 0]], "from_slice": True})
         out.append({"op": "append", "rows": [[1, 0], [2, 1]], "from_slice": True})
     out.append({"op": "touch_source"})
+    out.append({"op": "wrap_and_touch"})
     for c in cols:
         for v in (1, 2):
             out.append({"op": "remove_rows", "col": c, "v": v})
